@@ -96,10 +96,10 @@ func (s *TieredCompactionStrategy) selectL0Compaction() (*CompactionTask, error)
 	// Determine the key range covered by selected files
 	var minKey, maxKey []byte
 	for _, file := range selectedFiles {
-		if len(minKey) == 0 || bytes.Compare(file.FirstKey, minKey) < 0 {
+		if minKey == nil || bytes.Compare(file.FirstKey, minKey) < 0 {
 			minKey = file.FirstKey
 		}
-		if len(maxKey) == 0 || bytes.Compare(file.LastKey, maxKey) > 0 {
+		if maxKey == nil || bytes.Compare(file.LastKey, maxKey) > 0 {
 			maxKey = file.LastKey
 		}
 	}
